@@ -105,6 +105,7 @@ type RunResult struct {
 	SolverS      float64                `json:"solver_s"`
 	WallS        float64                `json:"wall_s"`
 	Steps        int                    `json:"steps"`
+	CacheHits    int                    `json:"query_cache_hits"`
 	Samples      []string               `json:"samples"`
 	Notes        []string               `json:"notes,omitempty"`
 	Outputs      []string               `json:"-"` // concrete-mode outcome lines
@@ -148,11 +149,14 @@ type Engine struct {
 	curFn     []*ssa.Function
 	threads   *threadState
 	spec      bool
+	qcache    map[string]SatResult
+	lastCheck SatResult
 }
 
 func NewEngine(ld *Loaded, cfg RunConfig) (*Engine, error) {
 	e := &Engine{prog: ld.prog, ld: ld, cfg: cfg}
 	e.tt = NewTermTable()
+	e.qcache = map[string]SatResult{}
 	if cfg.Solver == "" {
 		cfg.Solver = defaultSolver()
 	}
@@ -207,7 +211,24 @@ func (e *Engine) check(extra *Term) SatResult {
 	if e.sol == nil {
 		panic("solver used in concrete mode")
 	}
+	// memoise: re-executed path prefixes repeat the same (pc, extra) queries
+	var kb []byte
+	for _, t := range e.pc {
+		kb = append(kb, byte(t.id), byte(t.id>>8), byte(t.id>>16), byte(t.id>>24))
+	}
+	kb = append(kb, 0xff, byte(extra.id), byte(extra.id>>8), byte(extra.id>>16), byte(extra.id>>24))
+	key := string(kb)
+	if r, ok := e.qcache[key]; ok {
+		e.res.CacheHits++
+		return r
+	}
+	defer func() {
+		if len(e.qcache) < 2000000 {
+			e.qcache[key] = e.lastCheck
+		}
+	}()
 	r, _ := e.sol.Check(e.pc, extra, nil)
+	e.lastCheck = r
 	if r == Unknown {
 		e.inconclusive("solver-unknown")
 	}
